@@ -29,11 +29,11 @@ func (js *jsonBodyProcessor) ProcessRequest(reader io.Reader, v plugintypes.Tran
 	ss := s.String()
 	// Process with recursion limit
 	col := v.ArgsPost()
-	data, err := readJSON(ss, bpo.RequestBodyRecursionLimit)
-	// The collection is populated before checking the error to still perform a best effort inspection of the payload
-	for key, value := range data {
-		col.SetIndex(key, 0, value)
-	}
+	// The collection is populated before checking the error to still perform a best effort inspection of the payload.
+	// Every item is added: members whose flattened names coincide (duplicate names, "a.b" next to
+	// {"a":{"b":…}}, names differing only in case, an array next to a member called like its length
+	// entry) are all exposed instead of overwriting each other.
+	err := readJSONItems(ss, bpo.RequestBodyRecursionLimit, col.Add)
 	if err != nil {
 		return err
 	}
@@ -59,11 +59,8 @@ func (js *jsonBodyProcessor) ProcessResponse(reader io.Reader, v plugintypes.Tra
 	ss := s.String()
 	// Process with no recursion limit as we don't have a directive for response body
 	col := v.ResponseArgs()
-	data, err := readJSON(ss, ignoreJSONRecursionLimit)
 	// The collection is populated before checking the error to still perform a best effort inspection of the payload
-	for key, value := range data {
-		col.SetIndex(key, 0, value)
-	}
+	err := readJSONItems(ss, ignoreJSONRecursionLimit, col.Add)
 	if err != nil {
 		return err
 	}
@@ -80,17 +77,23 @@ func (js *jsonBodyProcessor) ProcessResponse(reader io.Reader, v plugintypes.Tra
 
 func readJSON(s string, maxRecursion int) (map[string]string, error) {
 	res := make(map[string]string)
+	err := readJSONItems(s, maxRecursion, func(key, value string) { res[key] = value })
+	return res, err
+}
+
+// readJSONItems flattens the document and hands every (name, value) item to emit, in document order.
+func readJSONItems(s string, maxRecursion int, emit func(key, value string)) error {
 	key := []byte("json")
 
 	json := gjson.Parse(s)
-	err := readItems(json, key, maxRecursion, res)
+	err := walkItems(json, key, maxRecursion, emit)
 	if err != nil {
-		return res, err
+		return err
 	}
 	if !gjson.Valid(s) {
-		return res, errors.New("invalid JSON")
+		return errors.New("invalid JSON")
 	}
-	return res, nil
+	return nil
 }
 
 // Transform JSON to a map[string]string
@@ -101,6 +104,10 @@ func readJSON(s string, maxRecursion int) (map[string]string, error) {
 // Example input: [{"data": {"name": "John", "age": 30}, "items": [1,2,3]}]
 // Example output: map[string]string{"json.0.data.name": "John", "json.0.data.age": "30", "json.0.items.0": "1", "json.0.items.1": "2", "json.0.items.2": "3"}
 func readItems(json gjson.Result, objKey []byte, maxRecursion int, res map[string]string) error {
+	return walkItems(json, objKey, maxRecursion, func(key, value string) { res[key] = value })
+}
+
+func walkItems(json gjson.Result, objKey []byte, maxRecursion int, emit func(key, value string)) error {
 	arrayLen := 0
 	var iterationError error
 	if maxRecursion == 0 {
@@ -123,7 +130,7 @@ func readItems(json gjson.Result, objKey []byte, maxRecursion int, res map[strin
 		switch value.Type {
 		case gjson.JSON:
 			// call recursively with one less item to avoid doing infinite recursion
-			iterationError = readItems(value, objKey, maxRecursion-1, res)
+			iterationError = walkItems(value, objKey, maxRecursion-1, emit)
 			if iterationError != nil {
 				return false
 			}
@@ -138,13 +145,13 @@ func readItems(json gjson.Result, objKey []byte, maxRecursion int, res map[strin
 			val = value.Raw
 		}
 
-		res[string(objKey)] = val
+		emit(string(objKey), val)
 		objKey = objKey[:prevParentLength]
 
 		return true
 	})
 	if arrayLen > 0 {
-		res[string(objKey)] = strconv.Itoa(arrayLen)
+		emit(string(objKey), strconv.Itoa(arrayLen))
 	}
 	return iterationError
 }
